@@ -5,6 +5,7 @@
 //!        nbverif catalog            dump the unit catalog of the current tree's prelude (JSON lines)
 
 mod catalog;
+mod h_accept;
 mod h_arith;
 mod h_assert;
 mod h_c08;
@@ -60,6 +61,7 @@ const ENTRIES: &[(&str, Entry)] = &[
     ("h_c15_string", h_string::h_c15_string),
     ("h_c15_expr", h_echo::h_c15_expr),
     ("h_c16_infer", h_echo::h_c16_infer),
+    ("h_c02_accept", h_accept::h_c02_accept),
     ("h_c06_rollback", h_echo::h_c06_rollback),
     ("h_c07_batch", h_echo::h_c07_batch),
     ("h_c14_integer", h_number::h_c14_integer),
